@@ -28,6 +28,27 @@ var (
 	zzC10Funcs = map[string]uintptr{}
 )
 
+type c10Made struct {
+	fn interface{}
+	a  uintptr
+}
+
+// function values goom built earlier (As): each must keep its own code pointer
+var c10MadeFns []c10Made
+
+func c10Remember(fn interface{}, a uintptr) bool {
+	for _, e := range c10MadeFns {
+		if reflect.ValueOf(e.fn).Pointer() != e.a {
+			return false
+		}
+	}
+	if len(c10MadeFns) >= 8 {
+		c10MadeFns = c10MadeFns[1:]
+	}
+	c10MadeFns = append(c10MadeFns, c10Made{fn, a})
+	return true
+}
+
 func c10ApiClass(msg string) string {
 	switch {
 	case strings.Contains(msg, ": function symbol not found"):
@@ -64,10 +85,16 @@ func c10ApiQuery(q string) (obs, rt string) {
 	case q[0] == 'F' && len(parts) == 2:
 		m := Create().Pkg(parts[0]).ExportFunc(parts[1]).As(func() {})
 		a := reflect.ValueOf(m.(*DefMocker).funcDef).Pointer()
+		if !c10Remember(m.(*DefMocker).funcDef, a) {
+			return "exposed-value-changed", "-"
+		}
 		return fmt.Sprintf("ok:%#x", a), vh.FuncTruth(parts[0]+"."+parts[1], a, zzC10Funcs)
 	case q[0] == 'M' && len(parts) == 3:
 		m := Create().Pkg(parts[0]).ExportStruct(parts[1]).Method(parts[2]).As(func() {})
 		a := reflect.ValueOf(m.(*DefMocker).funcDef).Pointer()
+		if !c10Remember(m.(*DefMocker).funcDef, a) {
+			return "exposed-value-changed", "-"
+		}
 		recv := parts[1]
 		if strings.Contains(recv, "*") {
 			recv = "(" + recv + ")"
